@@ -16,6 +16,7 @@ import (
 	"verif/harness/fakenet"
 	"verif/harness/hx"
 	"verif/harness/peer"
+	"verif/harness/quiesce"
 	"verif/harness/tx"
 )
 
@@ -28,13 +29,13 @@ type Beh struct {
 }
 
 type Case struct {
-	Engine   string `json:"engine"` // pipe | reuse
-	Datagram bool   `json:"datagram"`
-	Conns    []Beh  `json:"conns"`     // behaviour of the i-th successfully dialled connection (the last entry repeats)
-	DialFail []bool `json:"dial_fail"` // whether the i-th dial fails (missing = ok)
-	Bursts   []int  `json:"bursts"`    // queries are issued in bursts of this many concurrent calls
-	MaxCQ    int    `json:"max_cq"`
-	SlowCloseMs int `json:"slow_close_ms"` // Close() of a connection takes this long
+	Engine      string `json:"engine"` // pipe | reuse
+	Datagram    bool   `json:"datagram"`
+	Conns       []Beh  `json:"conns"`     // behaviour of the i-th successfully dialled connection (the last entry repeats)
+	DialFail    []bool `json:"dial_fail"` // whether the i-th dial fails (missing = ok)
+	Bursts      []int  `json:"bursts"`    // queries are issued in bursts of this many concurrent calls
+	MaxCQ       int    `json:"max_cq"`
+	SlowCloseMs int    `json:"slow_close_ms"` // Close() of a connection takes this long
 }
 
 func genCase(t *rapid.T) Case {
@@ -185,10 +186,10 @@ func runCase(c Case, ctx *hx.Ctx) *hx.Failure {
 	}()
 
 	type call struct {
-		name string
-		id   uint16
-		resp *[]byte
-		err  error
+		name                            string
+		id                              uint16
+		resp                            *[]byte
+		err                             error
 		dialFailsBefore, dialFailsAfter int
 	}
 	serial := 0
@@ -199,6 +200,15 @@ func runCase(c Case, ctx *hx.Ctx) *hx.Failure {
 		oldConn := map[int]bool{}
 		for _, fc := range env.Conns() {
 			oldConn[fc.ID] = true
+		}
+		// connections the transport itself had closed before this burst (no close is in progress any more): it knows
+		// they are dead, so no query of the burst may be written to them
+		quiesce.WaitGone("loseWithErr", 2*time.Second)
+		deadBefore := map[int]int{}
+		for _, fc := range env.Conns() {
+			if fc.IsClosed() {
+				deadBefore[fc.ID] = len(fc.FailedWrites())
+			}
 		}
 		calls := make([]*call, n)
 		var wg sync.WaitGroup
@@ -231,6 +241,17 @@ func runCase(c Case, ctx *hx.Ctx) *hx.Failure {
 			}
 			return hx.Failf("C08/exchange-never-returns", "engine=%s datagram=%v: a burst of %d queries has callers still inside ExchangeContext 12 s after their contexts ended; stuck in the transport:\n%s", c.Engine, c.Datagram, n, detail)
 		}
+		for _, fc := range env.Conns() {
+			if before, dead := deadBefore[fc.ID]; dead {
+				if fw := fc.FailedWrites(); len(fw) > before {
+					p := fw[before]
+					if !c.Datagram && len(p) > 2 {
+						p = p[2:]
+					}
+					return hx.Failf("C08/dead-connection-still-used", "engine=%s datagram=%v: connection %d had been closed by the transport before this burst started, yet query %s of the burst was written to it (%d such writes): a connection detected dead stays in the pool", c.Engine, c.Datagram, fc.ID, peer.QName(p), len(fw)-before)
+				}
+			}
+		}
 		mu.Lock()
 		df := dialFails
 		mu.Unlock()
@@ -241,16 +262,21 @@ func runCase(c Case, ctx *hx.Ctx) *hx.Failure {
 			attempts := len(seen)
 			freshFailed := false
 			for _, fc := range env.Conns() {
+				onThis := 0
 				for _, p := range fc.FailedWrites() {
 					if !c.Datagram && len(p) > 2 {
 						p = p[2:]
 					}
 					if peer.QName(p) == cl.name {
 						attempts++
+						onThis++
 						if !oldConn[fc.ID] {
 							freshFailed = true
 						}
 					}
+				}
+				if onThis >= 2 {
+					return hx.Failf("C08/retried-on-the-same-failed-connection", "engine=%s datagram=%v: the write of query %s failed on connection %d, and the query was then written to that same connection again (%d failed writes there) instead of another one", c.Engine, c.Datagram, cl.name, fc.ID, onThis)
 				}
 			}
 			if c.Datagram {
